@@ -386,12 +386,38 @@ def judge(ctx, name, trace_path):
     return summ, rej, r
 
 
+def harness_or_crash(ctx, args, label, timeout=3000):
+    """Run a harness driver whose servers live in its own process: a panic inside tile38 kills the driver.  That is
+    not an infrastructure problem but the server dying while it delivers notifications."""
+    try:
+        return ctx.harness(args, timeout=timeout)
+    except common.Infra as e:
+        msg = str(e)
+        if "panic:" in msg and "tile38/internal/" in msg:
+            first = [l for l in msg.split("\n") if l.startswith("panic:") or "tile38/internal/" in l][:4]
+            common.report(ctx, "c10-%s-server-died" % label,
+                          "the server process died while delivering notifications (%s): %s" % (label, " | ".join(x.strip() for x in first)),
+                          {"kind": "notify-crash", "args": list(args)})
+        raise
+
+
 def record(ctx, label, runs, seed, extra=()):
     out = os.path.join(ctx.scratch, "conc_%s.ndjson" % label)
     args = ["notify-conc", "-out", out, "-runs", str(runs), "-par", ctx.pick("4", "6"), "-seed", str(seed), "-patience", "60s",
             "-dir", os.path.join(ctx.scratch, "csrv_" + label)] + list(extra)
-    rc, js, err = ctx.harness(args, timeout=3000)
+    rc, js, err = harness_or_crash(ctx, args, label)
     return out, js, args
+
+
+def live_burst(ctx):
+    """Several live fences on ONE key and a pipelined burst of writes: every fence must get every event exactly once
+    (the count is LiveAckedGetsIt / LiveSafe for the simplest history: all fences acknowledged before the first write)."""
+    lives, n = 4, ctx.pick(6000, 40000)
+    rc, js, err = harness_or_crash(ctx, ["notify-liverace", "-lives", str(lives), "-n", str(n)], "live-burst", timeout=600)
+    if js["events_received"] != lives * n:
+        common.report(ctx, "c10-live-burst-count", "live fences on one key: %d events received for %d fences x %d writes"
+                      % (js["events_received"], lives, n), {"kind": "notify-crash", "args": ["notify-liverace", "-lives", str(lives), "-n", str(n)]})
+    return js["events_received"]
 
 
 def concurrent_legs(ctx, legs):
@@ -591,6 +617,7 @@ def run(ctx):
 
 
 def rest(ctx, st, chosen, covered, res, intended, refuted, taken, sims, ngen):
+    nburst = live_burst(ctx)
     summ, recs, nm2, tlines, tr = concurrent_legs(ctx, [
         ("faults", ctx.pick(8, 90), ctx.seed, ["-ops", ctx.pick("24", "30")]),
         ("nofaults", ctx.pick(8, 90), ctx.seed + 1000, ["-faults=false", "-pace", "1ms", "-writers", "5", "-ops", ctx.pick("24", "40")])])
@@ -647,6 +674,7 @@ def rest(ctx, st, chosen, covered, res, intended, refuted, taken, sims, ngen):
         "streams_rejected": summ["rejected"],
         "concurrent_info": {"with_faults": cj["info"], "without_faults": cj2["info"]},
         "redefinitions_replayed": st["replaces"],
+        "live_burst_events_exactly_once": nburst,
         "selftest_corruptions_noticed": nm1 + nm2,
         "selftest_samples": mut_samples,
         "exhaustive": False,
@@ -698,5 +726,9 @@ def run_replay(ctx):
                 common.report(ctx, "c10-replay-again-%s" % x["kind"], "recorded %s stream rejected by NotifyTrace: %s (run %s, receiver %d)"
                               % (x["kind"], ", ".join(sorted(x["why"])), x["id"], x["r"]),
                               {"kind": "notify-trace", "line": open(out).read().split("\n")[x["line"] - 1], "rejected": x, "args": p["args"]})
+        return
+    if p.get("kind") == "notify-crash":
+        for i in range(5):
+            harness_or_crash(ctx, p["args"], "replay", timeout=3000)
         return
     raise common.Infra("unknown replay file")
